@@ -7,7 +7,7 @@ def register(PROPS):
                      'the oracle is the text form itself (ISO 8601 / RFC 5545 rendering and a 30-line duration reader written from the grammar)',
         'claim': 'For every value listed under "bound": dt_strf and dt_strf_ical write the ISO 8601 resp. RFC 5545 text of the instant; that text and six '
                  'further spellings (with Z, blank instead of T, without separators, mixed, basic form with fraction) parse back with dt_strp to the same '
-                 'instant, with and without an explicit length, and dt_strp hands back the end of the text as the end of what it read (a trailing Z included; clause dt-end) for all 8 forms; range_strf -> range_strp is the identity; idiff_strf writes a valid ISO 8601 duration '
+                 'instant, with and without an explicit length, and dt_strp hands back the end of the text as the end of what it read (a trailing Z included; clause dt-end) for all 8 forms; taken out of a longer text with an explicit length (mode dt-cut) - the whole text, the date of a date-time, the date-time without its fraction, the date-time without its Z, while one of 22 other texts (nothing, T, blank, comma, slash, Z, a digit, dot, colon, dash, plus, tab, CR LF, a time behind T or blank, a word, a fraction, a further list item, the end of a range) or its own continuation stands right behind the length - it is the instant the counted characters spell, and the end handed back is the end of the counted characters (a Z right behind them may be taken along); range_strf -> range_strp is the identity; idiff_strf writes a valid ISO 8601 duration '
                  'of the same value which idiff_strp reads back (also when the text is followed by CR LF as in a content line); every listed spelling of a '
                  'duration, with and without a leading +, is read completely and as the same number of milliseconds; printing what was parsed parses to '
                  'the same value again.  End to end (c18_zoned): zoned recurring events (12 zones x 16 local dates of 2015 x 6 times of day x 6 schedules: DAILY, WEEKLY with DTEND, MONTHLY, '
@@ -18,10 +18,10 @@ def register(PROPS):
                 'times of day completely on 8 days (quick) / on the first of every month (thorough).',
         'rule': 'a case is one (year, month), (day, hour), block of durations or (w,d,h) prefix whose remaining values are looped inside; evaluations count '
                 'instants, ranges and duration texts, all distinct by construction; non-trivial = every instant, every range with beg != end, every duration text '
-                'of a non-zero duration; c18_zoned: a case is one event, evaluations count parses, non-trivial = the written text still carries the TZID',
+                'of a non-zero duration; dt-cut: a case is one (year, month), evaluations count (text, counted length, text behind it) parses, all non-trivial; c18_zoned: a case is one event, evaluations count parses, non-trivial = the written text still carries the TZID',
         'bound': {
             'quick': 'dt: every day 1901-2099 x {all-day, 00:00:00, 23:59:59, 12:34:56.789, 00:00:00.000, 23:59:59.999} x 8 text forms x {len, no len}; '
-                     'dt-times: every second of 8 days x ms {none,0,1,9,10,99,100,789,999}; range: every start day x 6 instants x end {same day, +1, +31, +366 d, '
+                     'dt-cut: every day 1901-2099 x the same 6 instants x 8 text forms x {whole text, date only, without fraction, without Z} x 22 texts behind the counted length (158305752 parses), plain and ASan; dt-times: every second of 8 days x ms {none,0,1,9,10,99,100,789,999}; range: every start day x 6 instants x end {same day, +1, +31, +366 d, '
                      '2099-12-31} x 6 instants, and open end; durations: every whole second 0..200000 in 5-6 spellings, every whole day 0..4000 '
                      '(+0/1/3599/3600/86399 s) in 2-3 spellings, every (w<=3, d<=9, h<=25, m<=61, s<=61) with every way of writing or leaving out zero parts; all with and without +; '
                      'zoned: 6912 events (12 zones x 16 dates x 6 times x 6 schedules) x 3 generations',
@@ -38,6 +38,8 @@ def register(PROPS):
             D('c18_strpf', ['mode=dt'], label='dt-asan', variant='asan', shards=8),
             D('c18_strpf', ['mode=dur-days', 'max=4000'], label='dur-days-asan', variant='asan', shards=4),
             D('c18_strpf', ['mode=dur-secs', 'max=20000'], label='dur-secs-asan', variant='asan', shards=4),
+            D('c18_strpf', ['mode=dt-cut'], label='dt-cut'),
+            D('c18_strpf', ['mode=dt-cut'], label='dt-cut-asan', variant='asan'),
             D('c18_zoned', [], label='zoned-print-parse', shards=4),
             D('c18_zoned', [], label='zoned-print-parse-asan', variant='asan', shards=4),
         ],
@@ -49,6 +51,7 @@ def register(PROPS):
             '(such texts carry "W" in the parts= field of a signature)',
             'the iCalendar form has second resolution: an instant with milliseconds must parse back from it to the same second, whole-second marker set',
             'instants are UTC, so the iCalendar DATE-TIME is form 2 (trailing Z); dt_strp must accept the text with or without Z',
+            'dt-cut: a non-zero length argument of dt_strp delimits the text (that is how evical.c takes a value out of a line or a comma list and echse.c an argument): what stands behind the counted characters is not part of the stamp; only prefixes that are themselves a printed form are taken (date, date-time to the second, date-time without Z), not hours-and-minutes stamps; with length 0 (text ends at its NUL) nothing behind the text is judged; the sanitizer variant hands over a heap cell that ends with the follower text',
             'ranges are judged for two proper instants and for an open end ("beg+"); the forms with an unbounded start and "*" are not',
             'c18_zoned needs no reference (the same event read three times must agree with itself); RDATE and EXDATE lists are left out because the printer does not write them '
             '(known under C05: remaining/RDATE, remaining/EXDATE), BY* rule parts because they are evaluated on the UTC calendar day of DTSTART (known under C07) and the printer '
